@@ -78,13 +78,20 @@ def decide(ctx: Ctx, mod, a, import_error) -> int:
         broken.append("lean: " + ", ".join(lean["failing"]))
     if dis:
         broken.append(f"correspondence: {len(dis)} disagreement(s), first: {json.dumps(dis[0], default=str)[:400]}")
-    if broken and not violations and mod is not None:
+    known = core.known_findings(prop)
+    listed = {k for k, _ in known} | set(getattr(mod, "PENDING_FINDINGS", []) or [])
+
+    def fresh():
+        # violations that are not already listed findings: only those can explain a broken obligation
+        return [v for v in violations if v.key not in listed]
+
+    if broken and not fresh() and mod is not None:
         # failing-input search at the deep budget, seeded with the disagreeing inputs
         ctx.notes.append("obligation/correspondence broken -> deep failing-input search")
         violations.extend(mod.oracle(ctx, deep=True))
         if hasattr(mod, "search"):
             violations.extend(mod.search(ctx, dis, lean))
-    if broken and not violations:
+    if broken and not fresh():
         violations.append(Violation(
             "unproved:" + (lean["failing"][0] if lean and lean["failing"] else "correspondence"),
             "property no longer shown to hold: " + "; ".join(broken),
@@ -92,7 +99,6 @@ def decide(ctx: Ctx, mod, a, import_error) -> int:
              "disagreements": dis[:5], "build_log_tail": (lean or {}).get("build_log", "")[-1500:]},
             found_input=False))
     # known findings
-    known = core.known_findings(prop)
     reported = 0
     seen_keys = set()
     for v in violations:
